@@ -314,13 +314,13 @@ fn emitted_names_family(rep: &mut Report) {
     use crate::pipeline::{Lang, ALL_LANGS};
     use crate::refmodel::{self, RunFail};
     let read = |file: &str| -> Vec<String> {
-        std::fs::read_to_string(format!("{}/mc/data/{file}", report::VERIF)).map(|t| t.lines().filter(|l| !l.is_empty() && l.is_ascii() && is_ident(l)).map(String::from).collect()).unwrap_or_default()
+        std::fs::read_to_string(format!("{}/mc/data/{file}", report::VERIF)).map(|t| t.lines().filter(|l| !l.is_empty() && is_ident(l)).map(String::from).collect()).unwrap_or_default()
     };
     let mut fields = read("idents_fields.txt");
     // identifiers whose converted name starts with a digit (the dictionary has none)
     fields.extend(["_1", "_2fa", "__3d", "_4_u"].iter().map(|s| s.to_string()));
     let variants = read("idents_variants.txt");
-    let mut jobs: Vec<(String, bool, &'static str, Lang, bool, bool)> = Vec::new();
+    let mut jobs: Vec<(String, bool, &'static str, Lang, bool, bool, bool)> = Vec::new();
     for (list, variant) in [(&fields, false), (&variants, true)] {
         for id in list.iter() {
             for rule in &RULES[..8] {
@@ -329,20 +329,26 @@ fn emitted_names_family(rep: &mut Report) {
                 }
                 for &lang in &ALL_LANGS {
                     for prefixed in [false, true] {
-                        jobs.push((id.clone(), variant, rule, lang, prefixed, false));
+                        jobs.push((id.clone(), variant, rule, lang, prefixed, false, false));
+                    }
+                    // a variant of an algebraic enum goes through another writer than one of a unit enum
+                    if variant {
+                        jobs.push((id.clone(), variant, rule, lang, false, false, true));
                     }
                     // TypeScript revives dates by key: a date-typed field binds its name a second time, in ReviverFunc
                     if lang == Lang::TypeScript && !variant {
-                        jobs.push((id.clone(), variant, rule, lang, false, true));
+                        jobs.push((id.clone(), variant, rule, lang, false, true, false));
                     }
                 }
             }
         }
     }
-    let results = par_map(&jobs, report::threads(), |(id, variant, rule, lang, prefixed, date)| {
+    let results = par_map(&jobs, report::threads(), |(id, variant, rule, lang, prefixed, date, alg)| {
         let sp = spell(id)?;
         serde_name(rule, id, *variant)?;
-        let src = if *variant {
+        let src = if *variant && *alg {
+            format!("#[typeshare]\n#[serde(rename_all = \"{rule}\", tag = \"t\", content = \"c\")]\npub enum Subject {{ {sp}(u32), Zz9 {{ a: u32 }}, Yy8 }}\n")
+        } else if *variant {
             format!("#[typeshare]\n#[serde(rename_all = \"{rule}\")]\npub enum Subject {{ {sp}, Zz9 }}\n")
         } else {
             // (a plain one-word member after the subject: whether a key binding is written must not hang on the last member)
@@ -387,9 +393,9 @@ fn emitted_names_family(rep: &mut Report) {
     let mut judged = 0u64;
     let mut unreadable = 0u64;
     let mut nontrivial = BTreeSet::new();
-    for ((id, variant, rule, lang, prefixed, date), r) in jobs.iter().zip(results) {
+    for ((id, variant, rule, lang, prefixed, date, alg), r) in jobs.iter().zip(results) {
         let Some((exp, obs, src)) = r else { continue };
-        let pos = if *date { "field-key-in-reviver" } else if *variant { "variant" } else { "field" };
+        let pos = if *date { "field-key-in-reviver" } else if *alg { "algebraic-variant" } else if *variant { "variant" } else { "field" };
         judged += 1;
         if exp != *id {
             nontrivial.insert(report::fnv64(&format!("{id}|{rule}|{pos}|{}", lang.name())));
